@@ -89,7 +89,7 @@ def run(ctx):
     ctx.not_decided += ["the numerical laws themselves (rounding, permutation invariance up to rounding, monotonicity of percentile): runtime quantities", "that f64::min/max/sum behave as documented (std)"]
     f = core.hir_fn(BCALL)
     ARGS_NAME[0] = H.param_by_type(f, "Vec<blots_core::values::Value>", "args")
-    m = H.matches_on(f["body"], "functions::BuiltInFunction")[0]
+    m = H.main_match(f["body"], "functions::BuiltInFunction")
     arms = {}
     for a in m["arms"]:
         for v in H.pat_variants(a["pat"]):
